@@ -502,6 +502,41 @@ pub fn mon_direct_route(_case: &Case, _rec: &Record) -> Option<Violation> {
     None
 }
 
+/// The lower-level route once more, with an authenticator that was used for another scope first: the decision for the
+/// case's scope must still be the entry point's.
+#[cfg(feature = "unstable-api")]
+pub fn mon_direct_route_after(case: &Case, rec: &Record, earlier_region: &str, earlier_service: &str) -> Option<Violation> {
+    if matches!(rec.outcome, Outcome::NotBuilt(_) | Outcome::Panic { .. } | Outcome::Hung) {
+        return None;
+    }
+    let d = crate::exec::execute_direct_after(case, 900, Some((earlier_region, earlier_service)));
+    if d.outcome.digest() != rec.outcome.digest() || d.events != rec.events {
+        return Some(violation(
+            "direct-route",
+            "depends-on-earlier-use",
+            format!(
+                "an authenticator first used (prevalidate, validate_signature) for {}/{} and then for {}/{} gives {} / {:?}; sigv4_validate_request gives {} / {:?}",
+                earlier_region,
+                earlier_service,
+                case.cfg.region,
+                case.cfg.service,
+                d.outcome.brief(),
+                d.events,
+                rec.outcome.brief(),
+                rec.events
+            ),
+            case,
+            None,
+        ));
+    }
+    None
+}
+
+#[cfg(not(feature = "unstable-api"))]
+pub fn mon_direct_route_after(_case: &Case, _rec: &Record, _r: &str, _s: &str) -> Option<Violation> {
+    None
+}
+
 pub fn kind_is(rec: &Record, k: Kind) -> bool {
     rec.outcome.err().map(|e| e.kind == k).unwrap_or(false)
 }
